@@ -3,7 +3,7 @@
     natives.  No Extract Constant; N / positive / nat stay inductive. *)
 Require Extraction.
 Require Import ExtrOcamlBasic.
-From RL Require Import Base.Md5 Model.Decode Model.Cost Model.Encode Model.Hide Model.Ops Model.Render.
+From RL Require Import Base.Md5 Model.Decode Model.Cost Model.Encode Model.Hide Model.Ops Model.Render Model.Show.
 Extraction Language OCaml.
 Extraction "model.ml"
   m_decode m_avps m_decode_avp m_encode m_enc_avp m_get_length m_encode_w m_enc_avp_w
@@ -12,4 +12,5 @@ Extraction "model.ml"
   sc_of_code cd_of_code mt_of_code et_of_code pa_of_code mt_code et_code pa_code
   sc_code cd_code decode_avp run utf8_valid
   default_opts strict_opts len m_decode_cost m_avps_cost
+  ch_dec ch_avps ch_type ch_enc ch_enca show_avp show_msg show_err show_mres show_avpres show_dres
   N.of_nat N.to_nat N.add N.mul N.div_eucl N.eqb N.ltb.
